@@ -156,6 +156,66 @@ func codecExec(ops []string) (dops []string, res []string) {
 				raw, err := s2Decompress(b)
 				return hx(raw), err
 			}))
+		case "bigblock":
+			// bigblock <entries> <valueSize> <blockThreshold> <seed>: a data block and a whole table far beyond the default block
+			// size (hundreds of KiB up to a few MiB); the round trip is compared here, against the property itself
+			n, _ := strconv.Atoi(t[1])
+			vs, _ := strconv.Atoi(t[2])
+			bs, _ := strconv.Atoi(t[3])
+			seed, _ := strconv.Atoi(t[4])
+			rr := rand.New(rand.NewSource(int64(seed)))
+			var es []types.Entry
+			for i := 0; i < n; i++ {
+				v := make([]byte, vs)
+				if i%2 == 0 {
+					rr.Read(v) // incompressible
+				} else {
+					for j := range v {
+						v[j] = byte(i)
+					}
+				}
+				es = append(es, types.Entry{Key: types.KeyWithTs(fmt.Sprintf("big-%04d", i), uint64(1+i)), Value: v, Tombstone: i%7 == 3, Version: int64(1 + i)})
+			}
+			add("roundtrip data block of "+t[1]+" entries x "+t[2]+" bytes", func() (out string) {
+				defer func() {
+					if p := recover(); p != nil {
+						out = fmt.Sprintf("panic: %v", p)
+					}
+				}()
+				d := table.Data{Entries: es}
+				b, err := d.Encode()
+				if err != nil {
+					return "encode error: " + err.Error()
+				}
+				var back table.Data
+				if err := back.Decode(b); err != nil {
+					return "decode error: " + err.Error()
+				}
+				if showCEs(back.Entries) != showCEs(es) {
+					return "decoded entries differ"
+				}
+				return "same"
+			}())
+			add("roundtrip table of "+t[1]+" entries x "+t[2]+" bytes, block threshold "+t[3], func() (out string) {
+				defer func() {
+					if p := recover(); p != nil {
+						out = fmt.Sprintf("panic: %v", p)
+					}
+				}()
+				idx, file := table.Build(es, bs, 0)
+				var got []types.Entry
+				for _, h := range idx.Entries {
+					var back table.Data
+					if err := back.Decode(file[h.DataHandle.Offset : h.DataHandle.Offset+h.DataHandle.Length]); err != nil {
+						return "decode error: " + err.Error()
+					}
+					got = append(got, back.Entries...)
+				}
+				if showCEs(got) != showCEs(es) {
+					return "decoded entries differ"
+				}
+				return "same"
+			}())
 		case "undata":
 			add(op, orError(func() (string, error) {
 				var d table.Data
@@ -524,6 +584,13 @@ func codecGen(r *rand.Rand, n int, big bool) []Case {
 				ops = append(ops, op)
 				tags["wal"] = true
 			case 8:
+				if big && r.Intn(4) == 0 {
+					vs := []int{1000, 20000, 65535}[r.Intn(3)]
+					total := []int{270000, 600000, 1100000, 2200000}[r.Intn(4)]
+					ops = append(ops, fmt.Sprintf("bigblock %d %d %d %d", total/vs+1, vs, []int{4096, 300000, 1 << 20, 4 << 20}[r.Intn(4)], r.Intn(1000)))
+					tags["block-beyond-256KiB"] = true
+					break
+				}
 				ops = append(ops, fmt.Sprintf("conc %d %d", 2+r.Intn(6), r.Intn(1000)))
 				tags["concurrent"] = true
 			}
